@@ -466,6 +466,61 @@ def engine_slotlist(prop, tier, seed, work):
     return res
 
 
+# ------------------------------------------------------------------------------ Timer inside a forwarding composite
+def engine_tping(prop, tier, seed, work):
+    """spec/TimerPing.tla (a user composite [PingSource, Timer] that forwards every event to both sub-sources): TLC on the
+    model and on its wrong variant, then runs of the real crate (drive_tping) judged by TimerPingTrace.tla"""
+    res = Result()
+    r = tlc_model("TimerPing", "mc/tping_q.cfg", work, workers=2, timeout=120)
+    res.states += r["distinct"]
+    res.transitions += r["generated"]
+    res.cmds.append("tlc -config mc/tping_q.cfg TimerPing.tla")
+    if not r["ok"]:
+        cex = "%s/replays/%s_model_tping.txt" % (ROOT, prop)
+        os.makedirs(ROOT + "/replays", exist_ok=True)
+        open(cex, "w").write(r["out"][-100000:])
+        res.viol.append({"prop": prop, "scn": "model:tping_q", "clauses": ["model:" + ",".join(r["violated"])], "replay": cex, "first_line": 0})
+    v = tlc_model("TimerPing", "mc/tping_var.cfg", work, workers=2, timeout=120)
+    if v["ok"]:
+        raise ToolError("variant no_token_check of TimerPing.tla is not flagged by TLC")
+    res.notes.append("TimerPing.tla: %d distinct states, invariants hold; variant no_token_check flagged (%s)" % (r["distinct"], ",".join(v["violated"])))
+    rnd = random.Random(seed * 31 + 7)
+    scns = []
+    for i in range(12 if tier == "quick" else 120):
+        rounds = rnd.choice([2, 3, 4])
+        script = ["ping"] if rnd.random() < 0.7 else []
+        script.append("dispatch0")
+        for _ in range(rounds + 1):
+            if rnd.random() < 0.4:
+                script.append("ping")
+            script.append("dispatch")
+        script.append("dispatch0")
+        scns.append({"id": "tp%d_%d" % (seed, i), "resched_ms": rnd.choice([2, 4, 7]), "rounds": rounds, "script": script})
+    sp = os.path.join(work, "tping_scn.ndjson")
+    tr = os.path.join(work, "tping_trace.ndjson")
+    with open(sp, "w") as f:
+        for s in scns:
+            f.write(json.dumps(s) + "\n")
+    sh([BIN + "/drive_tping", sp, tr], timeout=600)
+    verdict, _, _ = tlc_trace("TimerPingTrace", tr, work)
+    res.traces += verdict["scenarios"]
+    res.evaluations += len(scns)
+    res.nontrivial |= {s["id"] for s in scns}
+    res.cmds.append("drive_tping tping_scn.ndjson tping_trace.ndjson && TRACE=tping_trace.ndjson tlc -config TimerPingTrace.cfg TimerPingTrace.tla")
+    byid = {s["id"]: s for s in scns}
+    per = collections.OrderedDict()
+    for x in verdict["viol"]:
+        if x["p"] == prop:
+            per.setdefault(x["scn"], []).append(x)
+    for scn, vs in per.items():
+        rp = "%s/replays/%s_%s.json" % (ROOT, prop, scn)
+        os.makedirs(ROOT + "/replays", exist_ok=True)
+        json.dump({"property": prop, "engine": "tping", "scenario": byid.get(scn, {"id": scn}), "violations": vs}, open(rp, "w"), indent=0)
+        res.viol.append({"prop": prop, "scn": scn, "clauses": sorted({x["c"] for x in vs}), "replay": rp, "first_line": vs[0]["l"]})
+    res.samples.append({"engine": "tping", "scenario": scns[0]})
+    return res
+
+
 # ------------------------------------------------------------------------------ concurrent protocol engines
 CONC_KINDS = {"C02": ["chan"], "C03": ["ping"], "C04": ["chan"], "C10": ["exec"], "C11": ["signal", "blockon"]}
 # properties that only run the generated schedules of a kind (its protocol model belongs to another property)
@@ -800,6 +855,8 @@ for _p in CORE_CLASSES:
 for _p in CONC_KINDS:
     ENGINES.setdefault(_p, []).append(engine_conc)
 ENGINES["C06"].append(engine_slotlist)
+for _p in ("C01", "C05", "C12"):
+    ENGINES[_p].append(engine_tping)
 
 
 # engines that live in their own module tools/engine_<name>.py (loaded lazily: they import this module)
